@@ -80,3 +80,17 @@ claim("C20", "cobra command-literal and flag-registration extraction + def-use o
       "Decides: commands attached and RunE; every library error returned; Execute => non-zero exit; match-products exit condition; flag->variable table, required flags, path-list flags registered as string arrays (no CSV splitting), "
       "variables passed to the right library parameters; link naming formats agree with the loader; key loaded before use and certificate attached; sign/verify command "
       "shapes. Does not decide end-to-end acceptance of honest chains.", "4.20")
+
+# round 7 of the seeded changes ("two places that each look fine alone")
+also("C02", "A key's certificate string is only ever the PEM of the block its public key was parsed from (R-C02-6, who-may-write on KeyVal.Certificate below the threshold check); the verifier for a key is built from that key's own material without package-level state (shared R-C04-6); the metadata loaders share no error-returning function with the validators, so an honest link is never dropped at load time for a semantic reason (shared R-C05-6).")
+also("C04", "The payload loader returns the decoded object unmodified, so the legacy wrapper re-canonicalises what was signed after a dump / load round trip (shared R-C11-6).")
+also("C05", "The metadata loaders share no error-returning function with the validators: LoadLinksForLayout ignores files that do not load, so a loader that refuses for semantic reasons would drop a signed link before the agreement check (R-C05-6, call-graph disjointness).")
+also("C06", "Nothing on the load / verification paths writes Layout.Expires and the loader returns the decoded layout unmodified (R-C06-5 who-may-write, shared R-C11-6): the date checked is the signed one.")
+also("C08", "The verifier for a key is built from that key's own material without package-level state, so a key id used as a label in one sublayout cannot select another sublayout's key (shared R-C04-6).")
+also("C15", "decodeAndParse validates the first PEM block, the one the securesystemslib constructors parse and type-assert unchecked (shared R-C19-4).")
+also("C16", "A function that returns memory reachable from a package-level variable of any package (also a dependency's exported default list) is reported (R-C16-4).")
+also("C19", "No function writes through a Key it was handed (by value, in a slice or a map); only the pointer-receiver loader methods write a key's fields, so the preimage of a key id is stable after loading (R-C19-8, effects analysis with every Key parameter as owned memory).")
+also("C20", "loadKeyFromDisk returns success only on paths on which a LoadKeyDefaults of --key or --cert succeeded (R-C20-8: path-sensitive enumeration over emptiness of the two options, phi-carried flags included).")
+also("C13", "Name sets are recognised by what they contain (the key list of a map, built in place or by a key-list helper) rather than by the helper's name (R-C13-5).")
+also("C03", "getEsc refuses an empty rest, a bare '-' and a bare ']' inside a character class (R-C17-10, shared with C17); the path sets are recognised structurally (key lists, optionally cleaned by path.Clean).")
+also("C17", "getEsc refuses an empty rest, a bare '-' and a bare ']' inside a character class, which matchChunk's range loop relies on (R-C17-10).")
